@@ -100,14 +100,22 @@ theorem stepCommit_within (o : FOpts) (s : FState) (line inp : Bytes) :
   · exact stepInCommit_within _ _ _ _
   · exact tailRules_within _ _ _ _
 
+theorem stepObjects_within (o : FOpts) (s : FState) (line inp : Bytes) (fuel : Nat) :
+    (stepObjects o s line inp fuel).within inp.length := by
+  unfold stepObjects
+  repeat' (first | split | dsimp only)
+  all_goals first
+    | within_tac
+    | exact tagBlock_within _ _ _ _ _ _
+    | exact stepCommit_within _ _ _ _
+
 theorem stepMain_within (o : FOpts) (s : FState) (line inp : Bytes) (fuel : Nat) :
     (stepMain o s line inp fuel).within inp.length := by
   unfold stepMain
   repeat' (first | split | dsimp only)
   all_goals first
     | within_tac
-    | exact tagBlock_within _ _ _ _ _ _
-    | exact stepCommit_within _ _ _ _
+    | exact stepObjects_within _ _ _ _ _
 
 theorem step_within (o : FOpts) (s : FState) (line inp : Bytes) (fuel : Nat) :
     (step o s line inp fuel).within inp.length := by
@@ -138,13 +146,21 @@ theorem tagBlock_fuel (o : FOpts) (s : FState) (tagname : Bytes) :
       · rfl
       · exact ih _ _ (by omega)
 
+theorem stepObjects_fuel (o : FOpts) (s : FState) (line inp : Bytes) (f : Nat) (h : inp.length < f) :
+    stepObjects o s line inp f = stepObjects o s line inp (f + 1) := by
+  unfold stepObjects
+  repeat' (first | split | dsimp only)
+  all_goals first
+    | rfl
+    | exact tagBlock_fuel _ _ _ _ _ _ h
+
 theorem stepMain_fuel (o : FOpts) (s : FState) (line inp : Bytes) (f : Nat) (h : inp.length < f) :
     stepMain o s line inp f = stepMain o s line inp (f + 1) := by
   unfold stepMain
   repeat' (first | split | dsimp only)
   all_goals first
     | rfl
-    | exact tagBlock_fuel _ _ _ _ _ _ h
+    | exact stepObjects_fuel _ _ _ _ _ h
 
 theorem step_fuel (o : FOpts) (s : FState) (line inp : Bytes) (f : Nat) (h : inp.length < f) :
     step o s line inp f = step o s line inp (f + 1) := by
